@@ -395,3 +395,79 @@ func TestVerifC10Interim(t *testing.T) {
 		srv.Close()
 	}
 }
+
+// verifHookWriter runs a hook at the moment the session response writer releases the header to the writer behind it (in the
+// agent: the moment the response starts on its way to the client, who may follow up at once).
+type verifHookWriter struct {
+	http.ResponseWriter
+	hook func(h http.Header)
+	done bool
+}
+
+func (w *verifHookWriter) WriteHeader(code int) {
+	if !w.done && code >= 200 {
+		w.done = true
+		w.hook(w.Header())
+	}
+	w.ResponseWriter.WriteHeader(code)
+}
+
+// TestVerifC10ReleaseOrder: a client that follows up the instant a response is released (a redirect, a page's first
+// sub-resource): what the backend set in that response is already part of the session.
+func TestVerifC10ReleaseOrder(t *testing.T) {
+	out := verifOpenOut(t)
+	defer out.close()
+	const cookieName = "verif-session"
+	var mu sync.Mutex
+	setNext := ""
+	var saw []string
+	backend := http.HandlerFunc(func(w http.ResponseWriter, r *http.Request) {
+		mu.Lock()
+		var parts []string
+		for _, c := range r.Cookies() {
+			parts = append(parts, c.Name+"="+c.Value)
+		}
+		saw = parts
+		sc := setNext
+		setNext = ""
+		mu.Unlock()
+		if sc != "" {
+			w.Header().Add("Set-Cookie", sc)
+		}
+		w.WriteHeader(200)
+		w.Write([]byte("ok"))
+	})
+	c := NewCache(cookieName, time.Hour, 10, true)
+	h := c.SessionHandler(backend, nil)
+	session := ""
+	for ci, cs := range []struct{ name, set, want string }{{"new-session-first-cookie", "auth=tok1; Path=/", "auth=tok1"}, {"established-session-overwrite", "auth=tok2; Path=/", "auth=tok2"},
+		{"established-session-second-cookie", "pref=dark; Path=/", "pref=dark"}, {"established-session-delete", "pref=; Path=/; Max-Age=0", ""}} {
+		mu.Lock()
+		setNext = cs.set
+		mu.Unlock()
+		var followUp []string
+		req := httptest.NewRequest("GET", "http://app.example.com/login", nil)
+		if session != "" {
+			req.AddCookie(&http.Cookie{Name: cookieName, Value: session})
+		}
+		rec := httptest.NewRecorder()
+		hw := &verifHookWriter{ResponseWriter: rec}
+		hw.hook = func(hdr http.Header) {
+			sid := session
+			for _, ck := range (&http.Response{Header: hdr}).Cookies() {
+				if ck.Name == cookieName {
+					sid = ck.Value
+				}
+			}
+			r2 := httptest.NewRequest("GET", "http://app.example.com/next", nil)
+			r2.AddCookie(&http.Cookie{Name: cookieName, Value: sid})
+			h.ServeHTTP(httptest.NewRecorder(), r2)
+			mu.Lock()
+			followUp = append([]string(nil), saw...)
+			mu.Unlock()
+			session = sid
+		}
+		h.ServeHTTP(hw, req)
+		out.emit(map[string]interface{}{"kind": "release-order", "index": ci, "case": cs.name, "backend_set": cs.set, "expected_in_follow_up": cs.want, "follow_up_saw": followUp})
+	}
+}
